@@ -1,0 +1,10 @@
+//go:build verif
+
+package nasType
+
+// Contracts for the deductive check in /verif (comment-only; compiled only with -tags verif).
+// Accessor contracts are derived by the checker from the `Row, sBit, len` annotation on each accessor.
+
+//@ func GetBitMask(ub, lb) (bitMask)
+//@   ensures bitMask == ((uint8(1) << (ub - lb)) - 1) << lb
+//@ end
